@@ -62,7 +62,7 @@ def evOf (st : St) (ws : List String) : Option (Option Ev × List Peer) :=
     | some s => (if s == "-" then some [] else (s.splitOn ",").mapM parsePeer).map (fun ps => (none, ps))
     | none => none
   | "conn" :: _ => (natArg? ws "i").map (fun i => (none, setAt st.peers i (fun p => { p with connected := true })))
-  | "disc" :: _ => (natArg? ws "i").map (fun i => (none, setAt st.peers i (fun p => { p with connected := false, archival := false })))
+  | "disc" :: _ => (natArg? ws "i").map (fun i => (none, setAt st.peers i (fun p => if p.connected then { p with connected := false, archival := false } else p)))
   | "req" :: _ => (natArg? ws "v").map (fun v => (some (.request (v == 1)), st.peers))
   | "sched" :: _ => some (some (.schedule st.peers id), st.peers)
   | "out" :: _ =>
